@@ -10,7 +10,13 @@ Open Scope N_scope.
 
 (* authenticated.Rights.__init__: self._verify_user = self.configuration.get("auth", "type") != "none"
    (owner_only and owner_write inherit it) *)
-Definition verify_user (auth_type : pystr) : bool := negb (eqs auth_type (str "none")).
+(* The option is `str_or_callable`: Some name, or None = a value that is not a str (an auth plugin given as a
+   callable / class when Radicale is embedded); `x != "none"` is True for every non-str x. *)
+Definition verify_user (auth_type : option pystr) : bool :=
+  match auth_type with
+  | Some t => negb (eqs t (str "none"))
+  | None => true
+  end.
 
 (* `if self._verify_user and not user: return ""` *)
 Definition anonymous_denied (verify : bool) (u : pystr) : bool := verify && negb (nonempty u).
